@@ -349,7 +349,10 @@ pub fn run(args: &Args, rep: &mut Report) {
     let shards = args.u64("shards", 1);
     // exhaustive part
     let reads_q = [None, Some(Op::Read { cap: 1 }), Some(Op::Read { cap: 2 }), Some(Op::Read { cap: 1 << 20 }), Some(Op::Next)];
-    if thorough {
+    if args.flag("interp") {
+        // interpreter leg (Miri): a small exhaustive slice so that every branch of recv() is executed
+        exhaustive(rep, 4, 2, &reads_q[..], shard, shards);
+    } else if thorough {
         exhaustive(rep, 6, 4, &reads_q[..], shard, shards);
     } else {
         exhaustive(rep, 5, 3, &reads_q[..], shard, shards);
